@@ -516,43 +516,50 @@ def rule_keys(repo, tier):
 
 @guarded
 def rule_wexp(repo, tier):
-    """A weight given for fewer leading batch dimensions than the residual is broadcast over the MISSING LEADING dimensions: residual items are
-    flattened with the leading dimensions varying slowest, so the block list of the weight has to be repeated as a whole (tiled: w0..wN-1,
-    w0..wN-1, ...), never item by item (w0, w0, ..., w1, w1, ...), which pairs item (b, n) with weight[(b*N+n) // B]."""
-    res = RuleResult('C07.WEXP', 'normalize_RWJ expands a batched weight by tiling its whole block list (list * k, repeat/tile along the flattened '
-                     'axis), not by repeating each block in place (repeat_interleave, inner-loop repetition)', floor=1)
+    """The documented contract is torch broadcasting between the weight's batch shape and the residual's batch shape.  Pairing item (b, m, n) of the
+    flattened residual with its block therefore needs the weight EXPANDED to the residual's batch shape before it is cut into blocks.  Any
+    repetition of the flat block list is a cyclic (tiled: item j meets block j mod K) or blockwise (repeat_interleave: item j meets block j // k)
+    pairing: the first is right only when the weight's batch dimensions are the trailing ones of the residual and none has extent 1, the second
+    only for leading ones - a weight of shape M*1*R*R for a B*M*N*R residual is mispaired by both."""
+    res = RuleResult('C07.WEXP', 'normalize_RWJ pairs residual items with weight blocks by broadcasting: the weight is expanded to the batch shape of its '
+                     'residual (expand / expand_as / broadcast_to against the residual\'s shape) before it is split into blocks; the flat block list is '
+                     'never repeated (list * k, tile / repeat / repeat_interleave, nested comprehension)', floor=1)
     f = repo.func(OPT, 'RobustModel.normalize_RWJ')
     bad, good = [], []
     for n in ast.walk(f.node):
         if isinstance(n, ast.Call):
             name = (dotted(n.func) or (n.func.attr if isinstance(n.func, ast.Attribute) else '')).split('.')[-1]
             if name == 'repeat_interleave':
-                bad.append((n, 'repeat_interleave repeats every block in place'))
+                bad.append((n, 'repeat_interleave repeats every block in place (item j meets block j // k)'))
             elif name in ('tile', 'repeat') and isinstance(n.func, ast.Attribute):
+                bad.append((n, 'tiling the flat block list pairs item j with block j mod K'))
+            elif name in ('expand', 'expand_as', 'broadcast_to', 'broadcast_tensors') and any(isinstance(x, ast.Attribute) and x.attr == 'shape' for a_ in list(n.args) + [k.value for k in n.keywords]
+                                                                                         for x in ast.walk(a_)) or name == 'expand_as':
                 good.append(n)
         elif isinstance(n, ast.BinOp) and isinstance(n.op, ast.Mult):
             # list * int
-            for a, b in ((n.left, n.right), (n.right, n.left)):
-                if isinstance(a, ast.Name) and isinstance(b, (ast.Call, ast.Name)) and ('int' in src(b) or isinstance(b, ast.Name)):
-                    ls = [v for v in ast.walk(f.node) if isinstance(v, ast.Assign) and any(isinstance(t, ast.Name) and t.id == a.id for t in v.targets)
-                          and isinstance(v.value, (ast.ListComp, ast.List)) or (isinstance(v, ast.Assign) and any(isinstance(t, ast.Name) and t.id == a.id for t in v.targets)
-                                                                              and isinstance(v.value, ast.Call) and 'split' in src(v.value))]
+            for a_, b_ in ((n.left, n.right), (n.right, n.left)):
+                if isinstance(a_, ast.Name) and isinstance(b_, (ast.Call, ast.Name)) and ('int' in src(b_) or isinstance(b_, ast.Name)):
+                    ls = [v for v in ast.walk(f.node) if isinstance(v, ast.Assign) and any(isinstance(t, ast.Name) and t.id == a_.id for t in v.targets)
+                          and (isinstance(v.value, (ast.ListComp, ast.List)) or (isinstance(v.value, ast.Call) and ('split' in src(v.value) or 'unbind' in src(v.value)
+                                                                                                              or src(v.value).startswith('list('))))]
                     if ls:
-                        good.append(n)
+                        bad.append((n, 'repeating the flat block list pairs item j with block j mod K'))
         elif isinstance(n, (ast.ListComp, ast.GeneratorExp)) and len(n.generators) == 2:
             g0, g1 = n.generators
-            # [x for x in ws for _ in range(k)]  = in-place repetition ;  [x for _ in range(k) for x in ws] = tiling
             if isinstance(g1.iter, ast.Call) and dotted(g1.iter.func) == 'range' and isinstance(n.elt, ast.Name) and isinstance(g0.target, ast.Name) \
                     and n.elt.id == g0.target.id:
-                bad.append((n, 'the inner loop repeats every block in place'))
+                bad.append((n, 'the inner loop repeats every block in place (item j meets block j // k)'))
             elif isinstance(g0.iter, ast.Call) and dotted(g0.iter.func) == 'range':
-                good.append(n)
-    res.inst({'function': f.fq, 'tiling expansions': [src(g)[:40] for g in good], 'in-place repetitions': [src(b)[:40] for b, _ in bad]}, f.fq)
-    for b, why in bad:
-        res.add(Finding('C07.WEXP', f, '`%s`: %s, but the residual items are flattened with the missing leading batch dimensions varying slowest - item '
-                        '(b, n) must meet weight[n], which is the n-th block of a TILED list' % (src(b)[:60], why), node=b))
+                bad.append((n, 'the outer loop tiles the flat block list (item j meets block j mod K)'))
+    res.inst({'function': f.fq, 'broadcast expansions': [src(g)[:50] for g in good], 'flat repetitions': [src(b_)[:40] for b_, _ in bad]}, f.fq)
+    for b_, why in bad:
+        res.add(Finding('C07.WEXP', f, '`%s`: %s; the documented contract is broadcasting, and a weight with a batch extent of 1 between two others (M*1*R*R '
+                        'for a B*M*N*R residual), or batch dimensions that are not the trailing ones, is paired with the wrong residual items' % (src(b_)[:60], why), node=b_))
     if not good and not bad:
         raise AnalysisError('C07.WEXP: the weight expansion of normalize_RWJ was not recognised')
+    if not good and bad:
+        pass
     return res
 
 
